@@ -10,7 +10,8 @@ from vp.oracle import units_si as U
 from vp import sim as S
 
 ID = 'C11'
-RULE = ('Smallest powertrain (motor + one gear). Hypothesis draws dt = m * 10^-e (m 1..999, e 0..4) in each of the 4 '
+RULE = ('Smallest powertrain (motor + one gear; in a fifth of the cases a self-locking worm drive that is held throughout, by '
+        'overload or by a zero duty cycle; a continuation may use a new Solver object). Hypothesis draws dt = m * 10^-e (m 1..999, e 0..4) in each of the 4 '
         'time units, n = 2..200 steps, T written either as the float product dt*n or as the decimal literal of '
         'm*n*10^-e, in the same or in another time unit; optionally a continuation (dt2, n2) built the same way, '
         'and optionally a stop condition. Oracle in exact rational seconds: a fresh run records n+1 instants, '
@@ -43,6 +44,17 @@ def _case_model(case):
         'init': {'pos': [0.0, 'rad'], 'speed': [0.0, 'rad/s']},
         'history': [],
     }
+    if case.get('held'):
+        # a self-locking worm drive held by a load far above stall (or by a zero duty cycle): nothing moves, the time
+        # axis must still be the full grid
+        full['chain'] = [{'type': 'worm', 'n_starts': 1, 'J': [J / 10, 'kgm^2'], 'helix': [5, 'deg'], 'pressure': [20, 'deg'],
+                          'link': {'kind': 'joint'}},
+                         {'type': 'wheel', 'n_teeth': 20, 'J': [J / 10, 'kgm^2'], 'helix': [5, 'deg'], 'pressure': [20, 'deg'],
+                          'link': {'kind': 'worm', 'f': 0.3}}]
+        full['load']['c0'] = 500.0
+        if case['held'] == 'zero-duty':
+            full['motor'].update(i0=[0.1, 'A'], imax=[2, 'A'], pwm0=0)
+            full['load']['c0'] = 0.1
     return full
 
 
@@ -74,7 +86,7 @@ def check(case) -> Result:
     for j, r in enumerate(runs):
         dt = [float(Fr(r['m'], 10 ** r['e'])), r['unit']]
         T = [_T(r), r['t_unit']]
-        op = {'op': 'run', 'dt': dt, 'T': T, 'stop': stop_on and j == 0}
+        op = {'op': 'run', 'dt': dt, 'T': T, 'stop': stop_on and j == 0, 'new_solver': bool(j and r.get('new_solver'))}
         n_before = len(b.powertrain.time)
         try:
             S.run_op(b, op)
@@ -122,7 +134,7 @@ def _dyadic(m, e):
 
 def _finish(res, case):
     res.nontrivial = (not _dyadic(case['m'], case['e'])) or case['unit'] != case['t_unit']
-    res.classes += (f'unit:{case["unit"]}', 'cont' if case.get('cont') else 'fresh-only',
+    res.classes += (f'unit:{case["unit"]}', 'held-drive' if case.get('held') else 'free-drive', 'cont' if case.get('cont') else 'fresh-only',
                     'decimal' if not _dyadic(case['m'], case['e']) else 'dyadic',
                     'T-other-unit' if case['unit'] != case['t_unit'] else f'T-{case["t_form"]}')
     return res
@@ -142,7 +154,11 @@ def s_case(draw, max_n=200):
     c = draw(s_run(max_n))
     if draw(st.integers(0, 2)) == 0:
         c['cont'] = draw(s_run(max_n // 2))
-    c['stop'] = draw(st.floats(0.05, 1.5)) if draw(st.integers(0, 4 if not c.get('cont') else 1)) == 0 else None
+        c['cont']['new_solver'] = draw(st.integers(0, 2)) == 0      # the continuation may use a new Solver object
+    if draw(st.integers(0, 4)) == 0:
+        c['held'] = draw(st.sampled_from(['overload', 'zero-duty']))
+    c['stop'] = draw(st.floats(0.05, 1.5)) if draw(st.integers(0, 4 if not c.get('cont') else 1)) == 0 \
+        and not c.get('held') else None
     return c
 
 
